@@ -32,6 +32,9 @@ def set_module_by_name(parent_module, name, child_module):
 
 def quantize(model, modules=None, **kwargs):
     # Quantization happens in-place
+    if modules is not None:
+        # (the filter can be any iterable, including a generator: it is tested against each module)
+        modules = list(modules)
     quantized = {}
     # A module can be registered under several names: each of them must lead to the same quantized module
     for name, m in model.named_modules(remove_duplicate=False):
